@@ -242,6 +242,12 @@ PROPS = {
                 note=TV_NOTE, technique="TLA+ specification (ApplyEval.tla EvalSem) + TLC trace validation of harness executions",
                 rule="random frames x random expression trees; non-trivial = a call expression evaluated on >=1 row; distinct by (expression, destination, result digest)"),
     "C04": dict(level="model_checking", nontrivial=nt_c04,
+                mc=[dict(name="HashGroup", module="HashGroup.tla", cfg="HashGroupMC.cfg", timeout=1500, heap="16g"),
+                    dict(name="HashGroupDeep", module="HashGroup.tla", cfg="HashGroupDeep.cfg", tier="thorough", timeout=3000, heap="20g"),
+                    dict(name="HashGroupPinD4", module="HashGroup.tla", cfg="HashGroupPinD4.cfg", expect_violation="NoDuplicateKeys"),
+                    dict(name="HashGroupEmit", module="HashGroup.tla", cfg="HashGroupEmit.cfg", emit=True, id_base=2000000, filter="groupby"),
+                    dict(name="HashGroupSim", module="HashGroup.tla", cfg="HashGroupSim.cfg", emit=True, id_base=3000000, filter="groupby", sim=(25, 400), depth=20, workers=4)],
+
                 text="Every GroupBy / Aggregate / QFrames call of the generated scenarios (key cardinality 1..3000 crossing each doubling of the hash table, all key "
                      "types and multi-column keys, both Null settings, -0.0/+0.0, NaN payloads, null vs empty string, built-in and user aggregations, As renaming, "
                      "error cases) is executed on the real library; TLC checks GroupPost (the observed groups partition the rows by key equality, rows in frame order) "
@@ -250,6 +256,12 @@ PROPS = {
                 technique="TLA+ specification (Rel.tla GroupPost/AggregateSem) + TLC trace validation of harness executions",
                 rule="random frames with controlled key cardinality; non-trivial = GroupBy with >=2 groups or Aggregate with >=2 result rows; distinct by (arguments, result digest)"),
     "C05": dict(level="model_checking", nontrivial=nt_c05,
+                mc=[dict(name="HashGroup", module="HashGroup.tla", cfg="HashGroupMC.cfg", timeout=1500, heap="16g"),
+                    dict(name="HashGroupDeep", module="HashGroup.tla", cfg="HashGroupDeep.cfg", tier="thorough", timeout=3000, heap="20g"),
+                    dict(name="HashGroupPinD4", module="HashGroup.tla", cfg="HashGroupPinD4.cfg", expect_violation="NoDuplicateKeys"),
+                    dict(name="HashGroupEmit", module="HashGroup.tla", cfg="HashGroupEmit.cfg", emit=True, id_base=2000000, filter="distinct"),
+                    dict(name="HashGroupSim", module="HashGroup.tla", cfg="HashGroupSim.cfg", emit=True, id_base=3000000, filter="distinct", sim=(25, 400), depth=20, workers=4)],
+
                 text="Every Distinct call of the generated scenarios (key cardinality 1..3000, all key types, key column subsets including none, both Null settings, "
                      "-0.0/+0.0 and NaN payloads) is executed on the real library and TLC checks DistinctPost (spec/Rel.tla): the result rows are unmodified, "
                      "pairwise distinct input rows, pairwise different on the key, and their number equals the number of key classes.",
@@ -305,6 +317,11 @@ def extract_scenarios(tlc_out, path, prop, mc):
                 j = line.rindex('}"')
                 s = line[i + 1:j + 1].replace('\\"', '"').replace("\\\\", "\\")
                 sc = json.loads(s)
+                flt = mc.get("filter")
+                if flt == "groupby" and sc["steps"][0].get("other") != 1:
+                    continue
+                if flt == "distinct" and sc["steps"][0].get("other") != 0:
+                    continue
                 n += 1
                 sc["id"] = base + n
                 sc["prop"] = prop
